@@ -66,6 +66,11 @@ pub struct Model {
     /// quiescent point, so which on-disk text the server saw while processing it depends on
     /// the schedule; messages belonging to such a state are not judged
     pub racy: Vec<bool>,
+    /// for a request sent after a didClose and before the next open/change: the state the
+    /// workspace would have if the server took the close into account right away (the closed
+    /// documents count with their on-disk text). Nothing fixes whether a server re-analyses at
+    /// a close or at the next edit, so such a request may be answered for either state.
+    pub after_close: BTreeMap<usize, ModelState>,
     /// for op i: number of notifications sent before it
     pub notifs_before_op: Vec<usize>,
     pub final_disk: BTreeMap<String, FileState>,
@@ -76,19 +81,28 @@ pub fn model_of(scenario: &Scenario) -> Model {
     let mut cur = ModelState::default();
     let mut states = vec![cur.clone()];
     let mut notifs_before_op = Vec::new();
-    for op in &scenario.ops {
+    let mut after_close: BTreeMap<usize, ModelState> = BTreeMap::new();
+    let mut closed_since_notif = false;
+    for (op_index, op) in scenario.ops.iter().enumerate() {
         notifs_before_op.push(states.len() - 1);
+        if closed_since_notif && matches!(op, Op::Request { .. }) {
+            let mut alt = cur.clone();
+            alt.seen_disk = disk.clone();
+            after_close.insert(op_index, alt);
+        }
         match op {
             Op::Open { path, text } | Op::Change { path, text } => {
                 cur.open.insert(path.clone(), text.clone());
                 cur.seen_disk = disk.clone();
                 cur.root = Some(path.clone());
                 states.push(cur.clone());
+                closed_since_notif = false;
             }
             Op::Close { path } => {
                 // no re-analysis happens at a close; from the next notification on the file
                 // on disk counts again for this document
                 cur.open.remove(path);
+                closed_since_notif = true;
             }
             Op::DiskWrite { path, text } => {
                 disk.insert(path.clone(), FileState::Text(text.clone()));
@@ -124,7 +138,7 @@ pub fn model_of(scenario: &Scenario) -> Model {
             _ => {}
         }
     }
-    Model { states, racy, notifs_before_op, final_disk: disk }
+    Model { states, racy, after_close, notifs_before_op, final_disk: disk }
 }
 
 fn responses(res: &ExecResult) -> BTreeMap<i64, Vec<&Value>> {
@@ -306,6 +320,16 @@ pub fn check_messages(prop: &str, scenario: &Scenario, model: &Model, res: &Exec
             }
         }
         if got != expected {
+            if let Some(alt) = model.after_close.get(i) {
+                // sent after a didClose: the answer may also be the one for the closed state
+                let alt_host = if alt.open.contains_key(path) { alt.fresh_host() } else { None };
+                if let Some(h) = alt_host {
+                    if h.workspace().contains(path) && h.expected(*kind, path, *offset, ranges) == got {
+                        stats.after_close_alt += 1;
+                        continue;
+                    }
+                }
+            }
             v.push(Violation::new(
                 prop,
                 format!("response-mismatch:{kind:?}"),
@@ -409,6 +433,7 @@ pub struct MsgStats {
     pub responses_checked: u64,
     pub outside_workspace_skipped: u64,
     pub racy_skipped: u64,
+    pub after_close_alt: u64,
     pub nonempty_responses: u64,
     pub cross_file_locations: u64,
     pub publishes_checked: u64,
